@@ -70,8 +70,24 @@ def _abs(node, locs):
 
 def fingerprints(func):
     """{local name: fingerprint of its FIRST binding}"""
-    locs = local_names(func)
     out = {}
+    for nm, fp in _bindings(func):
+        if nm not in out:
+            out[nm] = fp
+    return out
+
+
+def fingerprints_all(func):
+    """{local name: sorted fingerprints of ALL its bindings} - told apart `s = a; if c: s = '(' + a + ')'` from `n = a; ...; n = b`"""
+    out = {}
+    for nm, fp in _bindings(func):
+        out.setdefault(nm, []).append(fp)
+    return {k: sorted(v) for k, v in out.items()}
+
+
+def _bindings(func):
+    locs = local_names(func)
+    out = []
     stmts = sorted([n for n in _own(func) if isinstance(n, (ast.stmt, ast.comprehension, ast.ExceptHandler, ast.withitem, ast.NamedExpr))],
                    key=lambda n: (getattr(n, 'lineno', 0), getattr(n, 'col_offset', 0)))
 
@@ -108,8 +124,8 @@ def fingerprints(func):
         elif isinstance(s, FUNC):
             pass
         for nm, fp in binds:
-            if nm in locs and nm not in out:
-                out[nm] = fp
+            if nm in locs:
+                out.append((nm, fp))
     return out
 
 
@@ -139,6 +155,7 @@ def build_reference(modules):
             fps = fingerprints(f)
             if fps:
                 ref.setdefault(mname, {}).setdefault(q, fps)
+                ref.setdefault('__allfp__', {}).setdefault(mname, {}).setdefault(q, fingerprints_all(f))
     return ref
 
 
@@ -184,14 +201,17 @@ def _inline_return_temps(f, known):
 
 def normalise(mname, tree):
     """rename renamed locals of the module's functions back to their reference names; returns the list of renames done"""
-    from .canon import canonicalise_functions, canonicalise_temps
+    from .canon import canonicalise_functions, canonicalise_temps, canonicalise_comparisons
+    canonicalise_comparisons(tree)
     done = list(canonicalise_functions(mname, tree, load_reference()))
+    if done:
+        canonicalise_comparisons(tree)      # inlined helpers may have produced new spellings
     ref = load_reference().get(mname)
     if not ref:
         done.extend(canonicalise_temps(mname, tree, load_reference()))
         return done
     for _round in (1, 2):
-        _rename_locals_back(tree, ref, done)
+        _rename_locals_back(tree, ref, done, load_reference().get('__allfp__', {}).get(mname, {}))
         # new temporaries are substituted only now (a renamed reference local is not a new temporary); a second round of renaming sees
         # right-hand sides without them
         more = canonicalise_temps(mname, tree, load_reference())
@@ -201,7 +221,7 @@ def normalise(mname, tree):
     return done
 
 
-def _rename_locals_back(tree, ref, done):
+def _rename_locals_back(tree, ref, done, refall=None):
     for q, f in functions_of(tree):
         rf = ref.get(q)
         # a local the reference function does not have, bound once and returned by the very next statement, is a "return through a
@@ -217,7 +237,19 @@ def _rename_locals_back(tree, ref, done):
         act = fingerprints(f)
         extra = [a for a in act if a not in rf]
         mapping = {}
+        # first: locals whose whole set of bindings is unique on both sides
+        rall = (refall or {}).get(q) or {}
+        if rall:
+            aall = fingerprints_all(f)
+            for r in missing:
+                if r not in rall or sum(1 for r2 in missing if rall.get(r2) == rall[r]) != 1:
+                    continue
+                cands = [a for a in extra if aall.get(a) == rall[r] and a not in mapping]
+                if len(cands) == 1:
+                    mapping[cands[0]] = r
         for r in missing:
+            if r in mapping.values():
+                continue
             cands = [a for a in extra if act[a] == rf[r] and a not in mapping]
             if len(cands) == 1:
                 mapping[cands[0]] = r
